@@ -393,9 +393,19 @@ def trim_case(draw, max_n=8, containers=None, renumber=None):
             container = draw(st.sampled_from(SPA))
     else:
         container = draw(st.sampled_from(containers))
+    dtype = draw(st.sampled_from(DTYPES))
+    if np.issubdtype(np.dtype(dtype), np.integer) and np.dtype(dtype).itemsize < 8 and draw(st.integers(0, 2)) == 0:
+        # every entry representable in the (narrow) dtype, row totals far beyond its range
+        top = max(max(r) for r in C)
+        if top > 0:
+            f = int(np.iinfo(dtype).max) // top
+            C = [[c * f for c in r] for r in C]
+            if draw(st.booleans()):
+                thr = thr * f
+            mode += "/near_dtype_max"
     case = {"counts": C, "threshold": thr, "gen": mode, "container": container,
             "variant": _variant_for(draw, container),
-            "dtype": draw(st.sampled_from(DTYPES)),
+            "dtype": dtype,
             "renumber": draw(st.booleans()) if renumber is None else renumber,
             "defaults": draw(st.booleans()), "positional": draw(st.booleans())}
     return case
